@@ -39,7 +39,8 @@ INFO = {
 }
 EXPECTED_PROBES = ("after_help_run", "after_failed_run", "help_of_unparsable_default_sub", "lenient_command",
                    "shared_parser", "style_pair_from_same_factory", "style_customised_after_sibling",
-                   "repeat_table", "repeat_help", "repeat_trace", "same_raw_args_object_again")
+                   "repeat_table", "repeat_help", "repeat_trace", "same_raw_args_object_again",
+                   "help_addressed_by_alias")
 
 
 def setup():
@@ -266,6 +267,8 @@ def gen(S, tier):
         spec = apptree.gen_app(c)
         spec["shared_parser"] = c.chance(0.3)
         lv = apptree.leaves(spec)
+        if S("extension").chance(0.2):
+            spec["help_alias"] = "hlp"
         # some commands parse leniently; some handlers raise
         scripts = {}
         for p, cmd, ch in lv:
@@ -327,6 +330,8 @@ def gen(S, tier):
                 toks = list(p)
             else:
                 toks = p + tail + [w.pick(["-q", "-vv", "--no-ansi", "--ansi", "-n", "-vvv"])]
+            if spec.get("help_alias") and toks and toks[0] == "help" and w.chance(0.6):
+                toks = [spec["help_alias"]] + toks[1:]
             # each run has its own streams: whether they are a terminal varies from run to run
             lines.append([k, toks, w.chance(0.5), w.chance(0.15)])
         return {"class": "app", "cfg": cfg, "app": spec, "scripts": scripts, "lines": lines, "ops": [], "renders": []}
@@ -394,7 +399,7 @@ def simplify(sc):
         if spec.get("shared_parser"):
             yield dict(sc, app=dict(spec, shared_parser=False))
         if len(spec["commands"]) > 1:
-            used = {l[1][0] for l in sc["lines"] if l[1]} | {l[1][1] for l in sc["lines"] if len(l[1]) > 1 and l[1][0] == "help"}
+            used = {l[1][0] for l in sc["lines"] if l[1]} | {l[1][1] for l in sc["lines"] if len(l[1]) > 1 and l[1][0] in ("help", "hlp")}
             keep = [c for c in spec["commands"] if c["name"] in used]
             if keep and len(keep) < len(spec["commands"]):
                 yield dict(sc, app=dict(spec, commands=keep))
@@ -491,6 +496,10 @@ def _exec_app(sc, res):
         got = run_line(app, inv, toks, lcfg, raw)
         want = zygote.reference(ME, "ref_run_line", spec, scripts, toks_before, lcfg)
         res.events.append((i, kind, digest(got)))
+        if spec.get("help_alias") and toks_before and toks_before[0] == spec["help_alias"]:
+            res.probe("help_addressed_by_alias")
+        if list(raw.tokens) != toks_before:
+            res.violate("input_mutated", "raw_args", "the caller's raw arguments changed from %r to %r" % (toks_before, list(raw.tokens)))
         if list(toks) != toks_before:
             res.violate("input_mutated", "tokens", "the caller's token list changed from %r to %r" % (toks_before, toks))
         if hist:
